@@ -46,7 +46,9 @@ var c06Offers = []offer{
 	{oBS, "literal", "[]bool{true}"}, {oBS, "variable", "vbs"}, {oBS, "call", "fbs()"},
 	{oSS, "literal", `[]string{"s"}`}, {oSS, "variable", "vss"}, {oSS, "call", "fss()"},
 	{oV, "call", "fv()"},
+	{oV, "operation", "(fv())"},
 	{oM, "call", "fm()"},
+	{oM, "operation", "(fm())"},
 }
 
 const c06Prelude = `vi := 1
@@ -382,6 +384,9 @@ func TestC06(t *testing.T) {
 			}
 			if p.skip != nil && p.skip(o) {
 				continue
+			}
+			if o.ty == oM && o.shape == "operation" && p.accept(o) {
+				continue // a parenthesised multi-value call where several values are wanted: not asserted
 			}
 			for _, ctx := range c06Contexts {
 				if p.topOnly && ctx.name != "top" {
